@@ -223,7 +223,7 @@ def transparent_targets(rep, F, tag):
         seen = set()
         for val, ret, ev, tr in Walker(w).leaves():
             ks = [k for k in val if k.startswith('discr(')]
-            if not ks:
+            if not ks or ret[0] == 'diverge':
                 continue
             d = val[ks[0]]
             if d >= len(vn):
@@ -232,6 +232,8 @@ def transparent_targets(rep, F, tag):
             seen.add(v)
             calls = [e for e in ev if e[0] == 'call']
             if v == 'Buffer':
+                if any(e[1] == 'from_residual' for e in calls):
+                    continue   # error-propagation path of a fallible append (`?`)
                 ext = [e[2] for e in calls if e[1] in ('extend_from_slice', 'extend', 'write_all', 'write')]
                 R.check(any(x.endswith(', arg2)') for x in ext), 'write|Buffer|appends-all' + tag,
                         'Buffer arm does not append the whole buffer: %s' % [e[2] for e in calls], w.loc())
